@@ -2016,7 +2016,7 @@ func main() {
 	r := run.Rand
 	exhaustive(run.Scale(4, 8))
 	exhaustiveHistories(run.Thorough())
-	n := run.Scale(8000, 200000)
+	n := run.Scale(8000, 350000)
 	for i := 0; i < n; i++ {
 		switch k := r.Intn(20); {
 		case k < 3:
@@ -2044,10 +2044,10 @@ func main() {
 	for i := 0; i < run.Scale(10, 100); i++ {
 		runCase(genBig(r, common.Pick(r, []string{"oci", "file", "mem"})))
 	}
-	for i := 0; i < run.Scale(400, 6000); i++ {
+	for i := 0; i < run.Scale(400, 10000); i++ {
 		runCase(genConcurrent(r, common.Pick(r, []string{"oci", "oci", "mem", "lim1000000", "file", "file", "ocistore"})))
 	}
-	for i := 0; i < run.Scale(700, 15000); i++ {
+	for i := 0; i < run.Scale(700, 25000); i++ {
 		runCase(genProxy(r))
 	}
 	for i := 0; i < run.Scale(300, 15000); i++ {
